@@ -795,6 +795,9 @@ pub struct RunLog {
   /// stamp at which the sentinel round started
   pub sentinel_stamp: u64,
   pub epilogue_done: bool,
+  /// is_subscribed() of the Subscription the last publish().connect() returned (before the
+  /// final unsubscribe); None = no connection handle is held
+  pub conn_is_subscribed: Option<bool>,
   pub lib_threads_total: usize,
   pub lib_threads_alive_end: usize,
   pub live_closures: i64,
@@ -1166,7 +1169,9 @@ fn epilogue(case: &Case, opts: &RunOpts, log: &Arc<Mutex<RunLog>>, env: Env, sh:
       outs.push(ProbeOut { sid, sub_no, at, tid, on_lib_thread, attempts, final_sub });
     }
     let counts: Vec<Option<usize>> = env.hots.iter().map(|h| h.observer_count()).collect();
+    let conn_is_subscribed = lk(&sh.connection).as_ref().map(|c| c.is_subscribed());
     let mut l = lk(&log);
+    l.conn_is_subscribed = conn_is_subscribed;
     l.probes = outs;
     l.subj_counts = counts;
     let mut sc: Vec<(usize, usize)> = env.stats.sub_counts().into_iter().collect();
